@@ -116,7 +116,7 @@ class DelayRun:
             self.dm.remove(n)
             self.ev.append({'op': op, 'n': n, 'nested': nested, 'pend': self.pend()})
         elif op == 'clear':
-            if self.owner == 'mode':
+            if self.owner == 'mode' and self.mode.active and not self.mode.stopping:
                 self.mode.stop()     # "its owning mode stops"
             else:
                 self.dm.clear()
